@@ -180,7 +180,15 @@ func vh_C03_lemma_R_small_order() {
 // (4) membership in a batch at any position: an all-valid batch is accepted entry by entry
 // (vh_C17_valid_batch_no_fallback covers the chunked path; here a batch with a remainder)
 func vh_C03_batch_membership() {
-	n := 3 + 4*vCase(0, 1) // 3: remainder path only; 7: one chunk of 7
+	n := 3
+	vReplicate = 0
+	switch vCase(0, 2) { // 3: remainder path only; 7: one chunk; 68: two chunks (first one replicated)
+	case 1:
+		n = 7
+	case 2:
+		n = 68
+		vReplicate = 64
+	}
 	r := vBatchRun(n, -1, 0, 0)
 	if !r.entropyOK {
 		return
